@@ -1256,3 +1256,228 @@ Proof.
       change (snd (next_orcs [px_orc])) with [px_orc]. apply IH. }
   intros fuel acc. apply H.
 Qed.
+
+(* ================================================================================================ *)
+(* G. C13 at cluster level: reciprocity of isolation during the handshake                           *)
+(* ================================================================================================ *)
+Definition nack_events (j now : Z) : list event :=
+  [Ident (Some (j, now)); Auth (ok_origin j) A_NOT_AUTHORIZED now now].
+
+(* (1) the proxy of i asks j, which is up, reachable and regards i as ISOLATED: i's inbox receives exactly the
+   identification and the NOT_AUTHORIZED notice; only the request is consumed *)
+Theorem handshake_reports_isolation : forall c i j now cn cj rest,
+  aget i (c_nodes c) = Some cn -> cn_up cn = true -> cn_pending cn = j :: rest ->
+  not_isolated (cn_node cn) j = true ->
+  aget j (c_nodes c) = Some cj -> cn_up cj = true ->
+  is_cut c i j = false -> is_cut c j i = false ->
+  inst_state (cn_node cj) i = Some ISOLATED ->
+  cstep c (AHandshake i now)
+  = Ok (set_node c i (mkCnode (cn_node cn) true (cn_cnt cn) (cn_inbox cn ++ nack_events j now) rest)).
+Proof.
+  intros c i j now cn cj rest Hi Hup Hp Hni Hj Hupj Hc1 Hc2 Hiso.
+  unfold cstep. rewrite Hi, Hp, Hup. cbv zeta. rewrite Hni.
+  unfold handshake_events. rewrite Hj, Hupj, Hc1, Hc2. cbv zeta. rewrite Hiso. reflexivity.
+Qed.
+
+(* (4) no proxy for an instance regarded ISOLATED (or unknown): the request is dropped, nothing is notified *)
+Theorem isolated_never_handshaken : forall c i j now cn rest,
+  aget i (c_nodes c) = Some cn -> cn_up cn = true -> cn_pending cn = j :: rest ->
+  not_isolated (cn_node cn) j = false ->
+  cstep c (AHandshake i now)
+  = Ok (set_node c i (mkCnode (cn_node cn) true (cn_cnt cn) (cn_inbox cn) rest)).
+Proof.
+  intros c i j now cn rest Hi Hup Hp Hni.
+  unfold cstep. rewrite Hi, Hp, Hup. cbv zeta. rewrite Hni. rewrite app_nil_r. reflexivity.
+Qed.
+
+Lemma isolated_is_not_not_isolated : forall n j, inst_state n j = Some ISOLATED -> not_isolated n j = false.
+Proof. intros n j H. unfold not_isolated. rewrite H. reflexivity. Qed.
+
+(* (2) node level: Context.on_authorization_event with NOT_AUTHORIZED = Context.invalidate with fence *)
+Lemma set_master_insts : forall n m, n_insts (fst (set_master n m)) = n_insts n.
+Proof. intros n m. unfold set_master. destruct (Z.eqb (master n) m); reflexivity. Qed.
+
+Lemma update_instance_state_insts : forall n j st, n_insts (fst (update_instance_state n j st)) = n_insts n.
+Proof.
+  intros n j st. unfold update_instance_state. cbv zeta.
+  match goal with |- context [if ?b then set_master ?x 0 else _] => destruct b end.
+  - rewrite set_master_insts.
+    destruct st; try reflexivity; destruct (Z.eqb j (n_me n)); try reflexivity;
+      match goal with |- context [if ?b then _ else _] => destruct b end; reflexivity.
+  - simpl.
+    destruct st; try reflexivity; destruct (Z.eqb j (n_me n)); try reflexivity;
+      match goal with |- context [if ?b then _ else _] => destruct b end; reflexivity.
+Qed.
+
+Lemma set_inst_state_from_checking : forall n j s st now,
+  aget j (n_insts n) = Some s -> is_state s = CHECKING -> st = ISTOPPED \/ st = ISOLATED ->
+  exists n' o, set_inst_state n j st now = Ok (n', o) /\ inst_state n' j = Some st.
+Proof.
+  intros n j s st now Hg Hs Hst. unfold set_inst_state. rewrite Hg, Hs.
+  assert (Hne : istate_eqb CHECKING st = false) by (destruct Hst; subst st; reflexivity).
+  assert (Hok : inst_transition_ok CHECKING st = true) by (destruct Hst; subst st; vm_compute; reflexivity).
+  rewrite Hne, Hok. cbv zeta.
+  match goal with |- context [update_instance_state ?a ?b ?c] =>
+    pose proof (update_instance_state_insts a b c) as Hi; destruct (update_instance_state a b c) as [n' o] end.
+  exists n', o. split; [reflexivity|]. simpl in Hi. unfold inst_state. rewrite Hi. simpl.
+  rewrite aget_aset_eq. destruct Hst; subst st; reflexivity.
+Qed.
+
+Lemma auth_not_authorized_step : forall n j s ts now,
+  aget j (n_insts n) = Some s -> is_state s = CHECKING -> is_checking_time s < ts ->
+  exists n' o, step n (Auth (ok_origin j) A_NOT_AUTHORIZED ts now) = Ok (n', o)
+               /\ inst_state n' j = Some (if Z.eqb j (n_me n) then ISTOPPED else ISOLATED).
+Proof.
+  intros n j s ts now Hg Hs Ht. unfold step, resolve, ok_origin. simpl og_resolved. simpl og_addr_ok.
+  unfold inst_state at 1. rewrite Hg, Hs. cbv beta iota. rewrite Hg.
+  assert (Hc : is_checking s ts = true).
+  { unfold is_checking. rewrite Hs. simpl. apply Z.ltb_lt. auto. }
+  rewrite Hc. unfold invalidate. destruct (Z.eqb j (n_me n)).
+  - apply set_inst_state_from_checking with s; auto.
+  - simpl orb. cbv iota. apply set_inst_state_from_checking with s; auto.
+Qed.
+
+(* the dispatch of outputs only touches channels *)
+Lemma push_msg_nodes : forall c a b m, c_nodes (push_msg c a b m) = c_nodes c.
+Proof. intros c a b m. unfold push_msg. destruct (is_cut c a b); reflexivity. Qed.
+
+Lemma fold_push_nodes : forall (P : Z -> bool) i m l c,
+  c_nodes (fold_left (fun c j => if P j then push_msg c i j m else c) l c) = c_nodes c.
+Proof.
+  intros P i m l. induction l as [|j r IH]; intros c; simpl; auto.
+  rewrite IH. destruct (P j); [apply push_msg_nodes | reflexivity].
+Qed.
+
+Lemma dispatch_nodes : forall outs c i n pend, c_nodes (fst (dispatch c i n outs pend)) = c_nodes c.
+Proof.
+  induction outs as [|o r IH]; intros c i n pend; simpl; auto.
+  destruct o; try apply IH. rewrite IH. apply fold_push_nodes.
+Qed.
+
+Lemma aget_set_node_eq : forall c i cn, aget i (c_nodes (set_node c i cn)) = Some cn.
+Proof. intros. unfold set_node. simpl. apply aget_aset_eq. Qed.
+Lemma aget_set_node_neq : forall c i k cn, k <> i -> aget k (c_nodes (set_node c i cn)) = aget k (c_nodes c).
+Proof. intros. unfold set_node. simpl. apply aget_aset_neq; auto. Qed.
+
+(* (2) cluster level: node i processes the NOT_AUTHORIZED notice about j, which it holds in CHECKING since before
+   the handshake time ts: j becomes ISOLATED at i (STOPPED if j is i itself); the other nodes are untouched *)
+Theorem not_authorized_isolates : forall c i cn j s ts t0 rest now orcs,
+  aget i (c_nodes c) = Some cn -> cn_up cn = true ->
+  cn_inbox cn = Auth (ok_origin j) A_NOT_AUTHORIZED ts t0 :: rest ->
+  aget j (n_insts (cn_node cn)) = Some s -> is_state s = CHECKING -> is_checking_time s < ts ->
+  exists c' cn', cstep c (ANotify i now orcs) = Ok c' /\ aget i (c_nodes c') = Some cn' /\
+    inst_state (cn_node cn') j = Some (if Z.eqb j (n_me (cn_node cn)) then ISTOPPED else ISOLATED) /\
+    cn_inbox cn' = rest /\ cn_up cn' = true /\
+    (forall k, k <> i -> aget k (c_nodes c') = aget k (c_nodes c)).
+Proof.
+  intros c i cn j s ts t0 rest now orcs Hi Hup Hin Hg Hs Ht.
+  destruct (auth_not_authorized_step (cn_node cn) j s ts now Hg Hs Ht) as [n' [o [E Hst]]].
+  unfold cstep. rewrite Hi, Hin, Hup. cbv zeta. unfold apply_step. simpl cn_node. rewrite E.
+  simpl cn_pending. simpl cn_up. simpl cn_cnt. simpl cn_inbox.
+  pose proof (dispatch_nodes o c i n' (cn_pending cn)) as Hd.
+  destruct (dispatch c i n' o (cn_pending cn)) as [c1 pend]. simpl in Hd.
+  eexists. eexists. split; [reflexivity|]. split; [apply aget_set_node_eq|].
+  split; [exact Hst|]. split; [reflexivity|]. split; [reflexivity|].
+  intros k Hk. rewrite aget_set_node_neq by auto. rewrite Hd. reflexivity.
+Qed.
+
+Lemma notify_ident : forall c i cn p rest now orcs,
+  aget i (c_nodes c) = Some cn -> cn_up cn = true -> cn_inbox cn = Ident p :: rest ->
+  cstep c (ANotify i now orcs)
+  = Ok (set_node c i (mkCnode (cn_node cn) true (cn_cnt cn) rest (cn_pending cn))).
+Proof.
+  intros c i cn p rest now orcs Hi Hup Hin. unfold cstep. rewrite Hi, Hin, Hup. reflexivity.
+Qed.
+
+(* (3) the composition *)
+Fixpoint crun_state (c : cluster) (acts : list action) : result cluster :=
+  match acts with
+  | [] => Ok c
+  | a :: r => match cstep c a with Ok c' => crun_state c' r | Crash k => Crash k end
+  end.
+
+Theorem reciprocal_isolation : forall c i j now now1 now2 orcs1 orcs2 cn cj rest s,
+  aget i (c_nodes c) = Some cn -> cn_up cn = true -> n_me (cn_node cn) = i ->
+  cn_pending cn = j :: rest -> cn_inbox cn = [] ->
+  aget j (n_insts (cn_node cn)) = Some s -> is_state s = CHECKING -> is_checking_time s < now ->
+  aget j (c_nodes c) = Some cj -> cn_up cj = true ->
+  is_cut c i j = false -> is_cut c j i = false ->
+  inst_state (cn_node cj) i = Some ISOLATED ->
+  exists c' cn',
+    crun_state c [AHandshake i now; ANotify i now1 orcs1; ANotify i now2 orcs2] = Ok c' /\
+    aget i (c_nodes c') = Some cn' /\ inst_state (cn_node cn') j = Some ISOLATED /\
+    cn_inbox cn' = [] /\ cn_up cn' = true /\
+    (forall k, k <> i -> aget k (c_nodes c') = aget k (c_nodes c)).
+Proof.
+  intros c i j now now1 now2 orcs1 orcs2 cn cj rest s Hi Hup Hme Hp Hin Hg Hs Ht Hj Hupj Hc1 Hc2 Hiso.
+  assert (Hni : not_isolated (cn_node cn) j = true).
+  { unfold not_isolated, inst_state. rewrite Hg, Hs. reflexivity. }
+  assert (Hne : j <> i).
+  { intros E. subst j. rewrite Hi in Hj. inversion Hj; subst cj.
+    unfold inst_state in Hiso. rewrite Hg, Hs in Hiso. discriminate. }
+  cbn [crun_state].
+  rewrite (handshake_reports_isolation c i j now cn cj rest Hi Hup Hp Hni Hj Hupj Hc1 Hc2 Hiso).
+  rewrite Hin. simpl app. unfold nack_events.
+  set (cn1 := mkCnode (cn_node cn) true (cn_cnt cn) _ rest).
+  set (c1 := set_node c i cn1).
+  rewrite (notify_ident c1 i cn1 (Some (j, now)) [Auth (ok_origin j) A_NOT_AUTHORIZED now now] now1 orcs1
+                        (aget_set_node_eq c i cn1) eq_refl eq_refl).
+  simpl cn_node. simpl cn_cnt. simpl cn_pending.
+  set (cn2 := mkCnode (cn_node cn) true (cn_cnt cn) _ rest).
+  set (c2 := set_node c1 i cn2).
+  destruct (not_authorized_isolates c2 i cn2 j s now now [] now2 orcs2 (aget_set_node_eq c1 i cn2) eq_refl eq_refl
+                                    Hg Hs Ht) as [c' [cn' [E [Hi' [Hst [Hin' [Hup' Hoth]]]]]]].
+  rewrite E. exists c', cn'. split; [reflexivity|]. split; auto. split.
+  - rewrite Hst. simpl cn_node. rewrite Hme. destruct (Z.eqb_spec j i); [contradiction | reflexivity].
+  - split; auto. split; auto. intros k Hk. rewrite (Hoth k Hk). unfold c2, c1.
+    rewrite !aget_set_node_neq by auto. reflexivity.
+Qed.
+
+(* Examples: a 2-node cluster. Node 1 holds 2 in CHECKING (since t = 5) with a handshake request pending; node 2
+   regards 1 as ISOLATED. *)
+Definition hs_opts : options := mkOpts 2 false false false true false false 20 FS_CONTINUE.
+Definition hs_node (me : Z) (s1 s2 : istate) : node :=
+  mkNode me hs_opts [] [] [(1, 1); (2, 2)]
+         [(1, mkIst s1 3 3 (if istate_eqb s1 CHECKING then 5 else 0));
+          (2, mkIst s2 3 3 (if istate_eqb s2 CHECKING then 5 else 0))]
+         [(1, if Z.eqb me 1 then mkSm SYNCHRONIZATION false 0 [(1, s1); (2, s2)] else sm_fresh);
+          (2, if Z.eqb me 2 then mkSm OPERATION false 2 [(1, s1); (2, s2)] else sm_fresh)] [] false 0 [].
+Definition hs_cluster (n1 : node) : cluster :=
+  mkCluster [(1, mkCnode n1 true 4 [] [2]); (2, mkCnode (hs_node 2 ISOLATED IRUNNING) true 4 [] [])] [] [].
+Definition hs_c1 : cluster := hs_cluster (hs_node 1 IRUNNING CHECKING).
+Definition state_at (r : result cluster) (i j : Z) : option istate :=
+  match r with
+  | Ok c => match aget i (c_nodes c) with Some cn => inst_state (cn_node cn) j | None => None end
+  | Crash _ => None
+  end.
+Definition inbox_at (r : result cluster) (i : Z) : option (list event) :=
+  match r with
+  | Ok c => match aget i (c_nodes c) with Some cn => Some (cn_inbox cn) | None => None end
+  | Crash _ => None
+  end.
+
+Example reciprocal_isolation_hyps :
+  exists cn cj s,
+    aget 1 (c_nodes hs_c1) = Some cn /\ cn_up cn = true /\ n_me (cn_node cn) = 1 /\
+    cn_pending cn = [2] /\ cn_inbox cn = [] /\
+    aget 2 (n_insts (cn_node cn)) = Some s /\ is_state s = CHECKING /\ is_checking_time s < 10 /\
+    not_isolated (cn_node cn) 2 = true /\
+    aget 2 (c_nodes hs_c1) = Some cj /\ cn_up cj = true /\
+    is_cut hs_c1 1 2 = false /\ is_cut hs_c1 2 1 = false /\
+    inst_state (cn_node cj) 1 = Some ISOLATED /\
+    inbox_at (cstep hs_c1 (AHandshake 1 10)) 1 = Some (nack_events 2 10) /\
+    state_at (crun_state hs_c1 [AHandshake 1 10; ANotify 1 11 [px_orc]; ANotify 1 12 [px_orc]]) 1 2 = Some ISOLATED /\
+    inbox_at (crun_state hs_c1 [AHandshake 1 10; ANotify 1 11 [px_orc]; ANotify 1 12 [px_orc]]) 1 = Some [].
+Proof. do 3 eexists. repeat split; reflexivity. Qed.
+
+(* once 1 regards 2 as ISOLATED a queued request for 2 is dropped silently *)
+Definition hs_c2 : cluster := hs_cluster (hs_node 1 IRUNNING ISOLATED).
+Example isolated_never_handshaken_hyps :
+  exists cn, aget 1 (c_nodes hs_c2) = Some cn /\ cn_up cn = true /\ cn_pending cn = [2] /\
+    not_isolated (cn_node cn) 2 = false /\
+    inbox_at (cstep hs_c2 (AHandshake 1 10)) 1 = Some [] /\
+    match cstep hs_c2 (AHandshake 1 10) with
+    | Ok c => match aget 1 (c_nodes c) with Some cn' => cn_pending cn' | None => [0] end
+    | Crash _ => [0]
+    end = [].
+Proof. eexists. repeat split; reflexivity. Qed.
